@@ -40,7 +40,7 @@ struct Removal {
 }
 
 /// (key, id, ctr) triples an operation returned as reads
-fn reads_of(e: &CEv) -> Vec<(u8, u32, u32)> {
+pub(crate) fn reads_of(e: &CEv) -> Vec<(u8, u32, u32)> {
   match (&e.op, &e.res) {
     (COp::Get { k }, Res::Val(id, c))
     | (COp::Fetch { k }, Res::Val(id, c))
